@@ -170,57 +170,245 @@ func c15TimersChangeReported(c *Ctx, rule string) {
 		c.R.Break(rule + ": sio.(*Timers).changed not found")
 		return
 	}
-	n := 0
+	var all []*ssa.Function
 	for _, f := range c.P.FuncsIn("sio") {
-		for _, g := range ssau.WithAnon(f) {
-			if g == changed {
+		all = append(all, ssau.WithAnon(f)...)
+	}
+	// a helper that always reports (on every way from its entry it calls changed, itself or through such a helper)
+	var always func(h *ssa.Function, depth int) bool
+	always = func(h *ssa.Function, depth int) bool {
+		if h == nil || h.Blocks == nil || depth > 3 || prog.PkgOf(h) != "sio" {
+			return false
+		}
+		pd := flow.NewPostDom(h)
+		res := false
+		ssau.Instrs(h, func(in2 ssa.Instruction) {
+			c2, ok2 := in2.(*ssa.Call)
+			if !ok2 || res || !pd.PostDominates(in2.Block(), h.Blocks[0]) {
+				return
+			}
+			if sc := c2.Common().StaticCallee(); sc == changed || (sc != nil && sc != h && always(sc, depth+1)) {
+				res = true
+			}
+		})
+		return res
+	}
+	reports := func(in ssa.Instruction, g *ssa.Function) bool {
+		ci, ok := in.(*ssa.Call)
+		if !ok {
+			return false
+		}
+		h := ci.Common().StaticCallee()
+		return h == changed || (h != nil && h != g && always(h, 0))
+	}
+	// reportedAfter: every fact-consistent way on from instruction `at` of g (the facts fs hold there) passes a report;
+	// where a way leaves g without one, the obligation goes to the callers of g: the ways that leave g unreported imply
+	// a value of a bool result of g, and at every call site every way on from the site on which the result has that
+	// value passes a report.
+	var reportedAfter func(g *ssa.Function, at ssa.Instruction, fs []flow.Fact, depth int) bool
+	reportedAfter = func(g *ssa.Function, at ssa.Instruction, fs []flow.Fact, depth int) bool {
+		blk := at.Block()
+		for _, in := range blk.Instrs[flow.Index(at)+1:] {
+			if reports(in, g) {
+				return true
+			}
+		}
+		avoid := map[*ssa.BasicBlock]bool{}
+		ssau.Instrs(g, func(in ssa.Instruction) {
+			if in.Parent() == g && reports(in, g) {
+				avoid[in.Block()] = true
+			}
+		})
+		reached := flow.ReachedUnderPhis(blk, fs, avoid)
+		var exits []*ssa.Return
+		if r, ok := blk.Instrs[len(blk.Instrs)-1].(*ssa.Return); ok {
+			exits = append(exits, r)
+		}
+		for _, b := range g.Blocks {
+			if r, ok := b.Instrs[len(b.Instrs)-1].(*ssa.Return); ok && reached[b] && b != blk {
+				exits = append(exits, r)
+			}
+		}
+		if len(exits) == 0 {
+			return true
+		}
+		if depth >= 3 {
+			return false
+		}
+		// the value of a bool result that the unreported exits imply
+		var eval func(v ssa.Value, ret *ssa.Return, d int) (bool, bool)
+		eval = func(v ssa.Value, ret *ssa.Return, d int) (bool, bool) {
+			if d > 4 {
+				return false, false
+			}
+			if cst, ok := v.(*ssa.Const); ok && cst.Value != nil && types.Identical(cst.Type().Underlying(), types.Typ[types.Bool]) {
+				return cst.Value.String() == "true", true
+			}
+			for _, f := range fs {
+				switch flow.CondRel(v, f.Cond) {
+				case 1:
+					return f.True, true
+				case -1:
+					return !f.True, true
+				}
+			}
+			switch x := v.(type) {
+			case *ssa.UnOp:
+				if x.Op.String() == "!" {
+					if val, known := eval(x.X, ret, d+1); known {
+						return !val, true
+					}
+				}
+			case *ssa.Phi:
+				if x.Block() != ret.Block() {
+					return false, false
+				}
+				n, val := 0, false
+				for i, p := range x.Block().Preds {
+					if p != blk && !reached[p] {
+						continue
+					}
+					// an edge that the facts rule out (the branch at the end of p is decided the other way) delivers nothing
+					if iff, isIf := p.Instrs[len(p.Instrs)-1].(*ssa.If); isIf && len(p.Succs) == 2 && p.Succs[0] != p.Succs[1] {
+						if cv, ck := eval(iff.Cond, ret, d+1); ck {
+							taken := p.Succs[1]
+							if cv {
+								taken = p.Succs[0]
+							}
+							if taken != x.Block() {
+								continue
+							}
+						}
+					}
+					v2, known := eval(x.Edges[i], ret, d+1)
+					if !known || (n > 0 && v2 != val) {
+						return false, false
+					}
+					n, val = n+1, v2
+				}
+				return val, n > 0
+			}
+			return false, false
+		}
+		ri, rv := -1, false
+		res := g.Signature.Results()
+		for i := 0; i < res.Len() && ri < 0; i++ {
+			if !types.Identical(res.At(i).Type().Underlying(), types.Typ[types.Bool]) {
 				continue
 			}
-			var calls []*ssa.BasicBlock
-			ssau.Instrs(g, func(in ssa.Instruction) {
-				if ci, ok := in.(ssa.CallInstruction); ok {
-					if ci.Common().StaticCallee() == changed {
-						calls = append(calls, in.Block())
-					} else if h := ci.Common().StaticCallee(); h != nil && prog.PkgOf(h) == "sio" && h != g {
-						// a helper that always reports
-						always := false
-						if h.Blocks != nil {
-							pd := flow.NewPostDom(h)
-							ssau.Instrs(h, func(in2 ssa.Instruction) {
-								if c2, ok2 := in2.(ssa.CallInstruction); ok2 && c2.Common().StaticCallee() == changed && pd.PostDominates(in2.Block(), h.Blocks[0]) {
-									always = true
-								}
-							})
+			okAll, val := true, false
+			for k, ret := range exits {
+				v2, known := eval(ret.Results[i], ret, 0)
+				if !known || (k > 0 && v2 != val) {
+					okAll = false
+					break
+				}
+				val = v2
+			}
+			if okAll {
+				ri, rv = i, val
+			}
+		}
+		// g must only be used by static calls
+		asValue := false
+		for _, k := range all {
+			ssau.Instrs(k, func(in ssa.Instruction) {
+				for _, op := range in.Operands(nil) {
+					if *op == nil {
+						continue
+					}
+					if *op == ssa.Value(g) {
+						if cl, ok := in.(*ssa.Call); !ok || cl.Common().Value != ssa.Value(g) {
+							asValue = true
 						}
-						if always {
-							calls = append(calls, in.Block())
-						}
+					} else if w, ok := (*op).(*ssa.Function); ok && w.Synthetic != "" && w.Object() != nil && w.Object() == g.Object() {
+						asValue = true // a method value of g
 					}
 				}
-			})
-			ssau.Instrs(g, func(in ssa.Instruction) {
-				isWrite := false
-				switch x := in.(type) {
-				case *ssa.MapUpdate:
-					_, isWrite = ssau.LoadOfField(x.Map, prog.Abs("sio"), "Timers", "Map")
-				case ssa.CallInstruction:
-					if b, isB := x.Common().Value.(*ssa.Builtin); isB && b.Name() == "delete" {
-						_, isWrite = ssau.LoadOfField(x.Common().Args[0], prog.Abs("sio"), "Timers", "Map")
-					}
-				}
-				if !isWrite {
-					return
-				}
-				n++
-				covered := false
-				for _, cb := range calls {
-					if cb == in.Block() || flow.CoveredBy(in.Block(), cb) {
-						covered = true
-					}
-				}
-				c.R.Check(covered, rule, fmt.Sprintf("%s: change #%d of the pending timers is reported", fname(g), n), c.pos(in), "followed by Timers.changed() on every way on", "the set of pending timers is changed here without Timers.changed() being called afterwards: the reported state of the timers machine keeps a timer that is gone (or lacks one that was added), so a crew rebuilt from the store fires it again (or never)")
 			})
 		}
+		if asValue {
+			return false
+		}
+		sites := callSitesOf(g, all)
+		if len(sites) == 0 {
+			return false
+		}
+		for _, site := range sites {
+			cl, ok := site.(*ssa.Call)
+			if !ok {
+				return false
+			}
+			facts := flow.StableFacts(flow.FactsAt(cl.Block()))
+			if ri >= 0 {
+				var rval ssa.Value
+				if res.Len() == 1 {
+					rval = cl
+				} else if cl.Referrers() != nil {
+					for _, r := range *cl.Referrers() {
+						if ex, isE := r.(*ssa.Extract); isE && ex.Index == ri {
+							rval = ex
+						}
+					}
+				}
+				if rval != nil {
+					facts = append(facts, flow.Fact{Cond: rval, True: rv})
+				}
+			}
+			if !reportedAfter(cl.Parent(), cl, facts, depth+1) {
+				return false
+			}
+		}
+		return true
+	}
+	n := 0
+	for _, g := range all {
+		if g == changed {
+			continue
+		}
+		var calls []*ssa.BasicBlock
+		ssau.Instrs(g, func(in ssa.Instruction) {
+			if in.Parent() != g {
+				return
+			}
+			if ci, ok := in.(ssa.CallInstruction); ok {
+				if ci.Common().StaticCallee() == changed {
+					calls = append(calls, in.Block())
+				} else if h := ci.Common().StaticCallee(); h != nil && prog.PkgOf(h) == "sio" && h != g && always(h, 0) {
+					// a helper that always reports
+					calls = append(calls, in.Block())
+				}
+			}
+		})
+		ssau.Instrs(g, func(in ssa.Instruction) {
+			if in.Parent() != g {
+				return
+			}
+			isWrite := false
+			switch x := in.(type) {
+			case *ssa.MapUpdate:
+				_, isWrite = ssau.LoadOfField(x.Map, prog.Abs("sio"), "Timers", "Map")
+			case ssa.CallInstruction:
+				if b, isB := x.Common().Value.(*ssa.Builtin); isB && b.Name() == "delete" {
+					_, isWrite = ssau.LoadOfField(x.Common().Args[0], prog.Abs("sio"), "Timers", "Map")
+				}
+			}
+			if !isWrite {
+				return
+			}
+			n++
+			covered := false
+			for _, cb := range calls {
+				if cb == in.Block() || flow.CoveredBy(in.Block(), cb) {
+					covered = true
+				}
+			}
+			if !covered {
+				// the report is made by the callers, after the helper that writes has returned
+				covered = reportedAfter(g, in, flow.StableFacts(flow.FactsAt(in.Block())), 0)
+			}
+			c.R.Check(covered, rule, fmt.Sprintf("%s: change #%d of the pending timers is reported", fname(g), n), c.pos(in), "followed by Timers.changed() on every way on", "the set of pending timers is changed here without Timers.changed() being called afterwards: the reported state of the timers machine keeps a timer that is gone (or lacks one that was added), so a crew rebuilt from the store fires it again (or never)")
+		})
 	}
 	if n == 0 {
 		c.R.Break(rule + ": no write to Timers.Map found in package sio")
@@ -735,6 +923,52 @@ func c15ReportNotTrimmed(c *Ctx, rule string) {
 		n, isN := p.Elem().(*types.Named)
 		return isN && n.Obj().Name() == "Changed" && n.Obj().Pkg() != nil && n.Obj().Pkg().Path() == prog.Abs("sio")
 	}
+	// dupFact: among the facts is the equality of two strings (the serialised form and the one last reported), as
+	// such or as what the true result of a helper of package sio implies (`repeated, err := c.seenBefore(mid, ch)`).
+	var dupFact func(fs []flow.Fact, depth int) bool
+	dupFact = func(fs []flow.Fact, depth int) bool {
+		for _, ft := range fs {
+			if bo, ok := ft.Cond.(*ssa.BinOp); ok && bo.Op.String() == "==" && ft.True {
+				if bt, isB := bo.X.Type().Underlying().(*types.Basic); isB && bt.Kind() == types.String {
+					return true
+				}
+			}
+		}
+		if depth >= 3 {
+			return false
+		}
+		for _, ft := range fs {
+			cond, pol := ft.Cond, ft.True
+			if u, ok := cond.(*ssa.UnOp); ok && u.Op.String() == "!" {
+				cond, pol = u.X, !pol
+			}
+			if !pol {
+				continue
+			}
+			var cl *ssa.Call
+			ri := 0
+			switch x := cond.(type) {
+			case *ssa.Call:
+				cl = x
+			case *ssa.Extract:
+				cl, _ = x.Tuple.(*ssa.Call)
+				ri = x.Index
+			}
+			if cl == nil {
+				continue
+			}
+			h := cl.Common().StaticCallee()
+			if h == nil || prog.PkgOf(h) != "sio" {
+				continue
+			}
+			if trueImplies(h, ri, func(b *ssa.BasicBlock, extra []flow.Fact) bool {
+				return dupFact(append(flow.FactsAt(b), extra...), depth+1)
+			}) {
+				return true
+			}
+		}
+		return false
+	}
 	nd, ns := 0, 0
 	for _, f := range scope {
 		ssau.Instrs(f, func(in ssa.Instruction) {
@@ -748,14 +982,7 @@ func c15ReportNotTrimmed(c *Ctx, rule string) {
 					return // the cache being drained, not the report
 				}
 				nd++
-				dup := false
-				for _, ft := range flow.FactsAt(in.Block()) {
-					if bo, ok := ft.Cond.(*ssa.BinOp); ok && bo.Op.String() == "==" && ft.True {
-						if bt, isB := bo.X.Type().Underlying().(*types.Basic); isB && bt.Kind() == types.String {
-							dup = true
-						}
-					}
-				}
+				dup := dupFact(flow.FactsAt(in.Block()), 0)
 				c.R.Check(dup, rule, fmt.Sprintf("%s: entry #%d taken out of the report", fname(f), nd), c.pos(in), "only under the equality of its serialised form with the last one reported", "an entry is taken out of the report without being a duplicate of what was last reported: that change never reaches the store")
 			case *ssa.Store:
 				fa, ok := x.Addr.(*ssa.FieldAddr)
